@@ -86,7 +86,9 @@ func (c *FnCtx) findPkg(name string, from *types.Package) *types.Package {
 
 func (c *FnCtx) resolveType(te *typeExpr, pkg *types.Package) types.Type {
 	var T types.Type
-	if te.slice {
+	if te.mapK != nil {
+		T = types.NewMap(c.resolveType(te.mapK, pkg), c.resolveType(te.elem, pkg))
+	} else if te.slice {
 		T = types.NewSlice(c.resolveType(te.elem, pkg))
 	} else if te.pkg != "" {
 		p := c.findPkg(te.pkg, pkg)
@@ -478,7 +480,9 @@ func (c *FnCtx) evBinary(x *eBinary, env *evalEnv) *Val {
 		return c.mk(boolT, app(x.op, as, bs))
 	case "+":
 		if T != nil && c.sortOf(T) == "Str" {
-			return c.mk(T, app("str_concat", as, bs))
+			r := app("str_concat", as, bs)
+			c.assume(eq(app("str_len", r), app("+", app("str_len", as), app("str_len", bs))))
+			return c.mk(T, r)
 		}
 		return &Val{T: T, S: app("+", as, bs)}
 	case "-", "*":
@@ -669,6 +673,35 @@ func (c *FnCtx) evCall(x *eCall, env *evalEnv) *Val {
 			return c.mk(intT, app("+", c.regs[target.rangeIx].S, "1"))
 		case "called":
 			return c.evCalled(x, env)
+		case "visited":
+			// visited(loopvar, key): key was already produced by the map iteration of that loop
+			var target *loopInfo
+			switch a := x.args[0].(type) {
+			case *eInt:
+				n, _ := strconv.Atoi(a.v)
+				for _, li := range c.loopOrd {
+					if li.ordinal == n {
+						target = li
+					}
+				}
+			case *eIdent:
+				target = c.loopOfVar(a.name)
+			}
+			if target == nil || target.nextIt == nil {
+				c.efail("visited(%s, ...): no map-range loop", exprText(x.args[0]))
+			}
+			rg, ok := target.nextIt.Iter.(*ssa.Range)
+			if !ok {
+				c.efail("visited: iterator is not a range")
+			}
+			K, _ := mapKV(rg.X.Type())
+			k := c.ev(x.args[1], env)
+			ks := k.S
+			if k.T != nil {
+				ks = c.coerce(k, K)
+			}
+			srt := "(Array " + c.sortOf(K) + " Bool)"
+			return c.mk(boolT, app("select", c.heapGet(c.state(env), itHeap(rg), srt), ks))
 		case "ite":
 			cnd := c.ev(x.args[0], env)
 			a := c.ev(x.args[1], env)
